@@ -75,7 +75,7 @@ class Analysis(object):
             return False
         t = t.strip()
         return t in ("int", "long", "unsigned int", "char", "Py_ssize_t",
-                     "long long", "unsigned long", "short") or t.endswith("*")
+                     "long long", "unsigned long", "unsigned long long", "short") or t.endswith("*")
 
     # -- liveness of flag variables (keeps the disjunctive state small) -------
     def _cond_vars(self, e, out):
@@ -271,7 +271,13 @@ class Analysis(object):
             if b is not None and b.k == "BinaryOperator" and b.v == "=":
                 b = strip(b.kids[0])
             op = e.v
-            ca, cb = const_int(a), const_int(b)
+            # typed constants: (unsigned long long)-1 is 2**64-1, so fold
+            # before the casts are stripped
+            ca, cb = const_int(e.kids[0]), const_int(e.kids[1])
+            if ca is None:
+                ca = const_int(a)
+            if cb is None:
+                cb = const_int(b)
             if ca is not None and cb is None:
                 a, b, ca, cb = b, a, cb, ca
                 op = {"<": ">", ">": "<", "<=": ">=", ">=": "<="}.get(op, op)
